@@ -232,6 +232,20 @@ def mul_events(args):
                         keys.append(["F8-y0"] if even_order(P) or even_order(Q) else [])
                         if Q is None:
                             break
+                    if Q == P:
+                        # aliasing: the very same object in both roles of mul_add, scaled or not; afterwards the object
+                        # must still denote P (an in-place rescaling applied twice would corrupt it)
+                        for rep in (("jac", 1), ("jac", 3 % p or 2)):
+                            S = make(ec, cf, P, rep, p, order, gen)
+                            tS = triple(ec, cname, S)
+                            out = out_point(ec, lambda: S.mul_add(ka, S, kb))
+                            events.append({"c": c, "op": "muladd", "A": {"t": tS}, "B": {"t": tS}, "k": 0, "ka": ka, "kb": kb, "raw": [],
+                                           "out": out, "how": name + "/same object in both roles"})
+                            keys.append(["F8-y0"] if even_order(P) else [])
+                            out = out_point(ec, lambda: S)
+                            events.append({"c": c, "op": "mul", "A": {"t": tS}, "B": Z0, "k": 1, "ka": 0, "kb": 0, "raw": [],
+                                           "out": out, "how": name + "/the object after mul_add with itself"})
+                            keys.append(["F8-y0"] if even_order(P) else [])
     return events, keys
 
 
